@@ -416,7 +416,7 @@ func runC01(w *World, r *Report) {
 			}
 		}
 		if n < 2 {
-			undecidedf("C01.empty-selection-allowed: only %d error returns found in the multi-branch wrappers", n)
+			r.Deferred = append(r.Deferred, fmt.Sprintf("C01.empty-selection-allowed: only %d error returns found in the multi-branch wrappers", n))
 		}
 	}
 
@@ -466,7 +466,7 @@ func runC01(w *World, r *Report) {
 			})
 		}
 		if n < 3 {
-			undecidedf("C01.chunks-are-values: only %d converter literals handed to StreamReaderWithConvert in package compose", n)
+			r.Deferred = append(r.Deferred, fmt.Sprintf("C01.chunks-are-values: only %d converter literals handed to StreamReaderWithConvert in package compose", n))
 		}
 	}
 
